@@ -600,9 +600,17 @@ Definition refresh_ok (w : world) (n : nat) (now : Z) (r : treq) (st st' : store
     g_id g' = g_id g /\ g_expires g' = g_expires g /\ g_granted g' = g_granted g /\
     g_client g' = g_client g /\ g_subject g' = g_subject g /\
     g_refresh g' = (if cf_refresh_rotation (w_cfg w) then mint n KRefresh else g_refresh g) /\
-    tr_rt t = (if cf_refresh_rotation (w_cfg w) then mint n KRefresh else 0).
+    tr_rt t = (if cf_refresh_rotation (w_cfg w) then mint n KRefresh else 0) /\
+    (* resource indicators: the requested resources are among the granted ones, which stay as they were;
+       the refreshed token is for the requested resources, or for all granted ones when none is named *)
+    validate_resources (w_cfg w) (g_granted_res g) (t_resources r) = true /\
+    g_granted_res g' = g_granted_res g /\
+    g_active_res g' = (if cf_resource_enabled (w_cfg w)
+                       then (if no_res (t_resources r) then g_granted_res g else t_resources r)
+                       else g_active_res g).
 
 Local Transparent make_token.
+Local Opaque validate_resources.
 Lemma refresh_grant_post w n now r st t :
   snd (run_seq (refresh_grant w n now r) st) = OTokens t ->
   refresh_ok w n now r st (fst (run_seq (refresh_grant w n now r) st)) t.
@@ -619,6 +627,7 @@ Proof.
   all: match goal with g0 : gsession, c0 : client |- _ => exists g0, c0 end; eexists; repeat split; auto.
   all: try client_eq.
   all: try (match goal with H : negb (contains_all_scopes _ _) = false |- _ => apply negb_false_iff in H; exact H end).
+  all: try (match goal with H : negb (validate_resources _ _ _) = false |- _ => apply negb_false_iff in H; exact H end).
   all: try (cbn; rewrite ?ERot; reflexivity).
 Qed.
 
